@@ -10,6 +10,7 @@ import PvProofs.C19Csf
 #print axioms PvProofs.C19.ratio_failed_before_fix
 #print axioms PvProofs.C19.applyLoosely_never_fails_when_fee_le_price
 #print axioms PvProofs.C19.applyLoosely_error_invalid
+#print axioms PvProofs.C19.applyLoosely_fee_le_price
 #print axioms PvProofs.C19.applyTo_exact
 #print axioms PvProofs.C19.exchangeSplit_is_ceil
 #print axioms PvProofs.C19.exchangeSplit_skips
